@@ -34,7 +34,7 @@ ASSUMPTIONS = [
     '(the statement does not say whether 1 is a wrong-typed 1.0)',
 ]
 ANCHORS = ['TableValidator._validate_json', 'TableValidator._validate_hdf5', 'TableValidator._valid_sparse_data', 'TableValidator._valid_dense_data', 'TableValidator._valid_rows', 'TableValidator._valid_columns', 'TableValidator._valid_hdf5_metadata_v210', 'Table.to_json', 'Table.to_hdf5']
-REQUIRED = ['accept_subset_command_output', 'subset_requests_naming_an_id_twice', 'must_reject_through_command', 'dressed_documents_accepted_and_loaded', 'files_with_utc_offset_in_date', 'accept_with_explicit_version',
+REQUIRED = ['accept_under_another_file_name', 'accept_subset_command_output', 'subset_requests_naming_an_id_twice', 'must_reject_through_command', 'dressed_documents_accepted_and_loaded', 'files_with_utc_offset_in_date', 'accept_with_explicit_version',
             'must_reject_with_explicit_version', 'accept_json', 'accept_hdf5', 'accept_after_load', 'accept_cli', 'json_mutants',
             'hdf5_mutants', 'pair_mutants', 'must_reject_checked',
             'accepted_and_loaded']
@@ -499,6 +499,28 @@ def run_case(ctx, index):
                                     (rr.exit_code, rr.output[-300:], desc))
                 ctx.count('accept_cli')
             ctx.case(desc, True)
+        # what a file is called says nothing about what is in it: the same
+        # bytes under a name that ends in .gz / .txt / nothing are the same
+        # file (the reader goes by the content)
+        if index % 5 == 2:
+            for src, fmt in ((jp, 'json'), (hp, 'hdf5')):
+                alias = ctx.path('c15_%d_%s%s' % (index, fmt, r.choice(
+                    ['.gz', '.biom.gz', '.txt', '', '.JSON', '.h5'])))
+                shutil.copy(src, alias)
+                try:
+                    v, detail = validate(ctx, alias)
+                finally:
+                    os.remove(alias)
+                desc = dict(base, fmt=fmt, mutation=None,
+                            file_name=os.path.basename(alias))
+                if v != 'valid':
+                    raise Violation('C15/writer-output-rejected/renamed-' +
+                                    fmt, 'validator says %s (%s) for the '
+                                    'file the library wrote, under the name '
+                                    '%r; case=%r' % (v, detail,
+                                                     os.path.basename(alias),
+                                                     desc))
+                ctx.count('accept_under_another_file_name')
         # files written from tables whose history includes a load
         hp2 = ctx.path('c15_%d_b.biom' % index)
         jp2 = ctx.path('c15_%d_b.json' % index)
